@@ -176,6 +176,26 @@ func randVals(r *rand.Rand) sgxVals {
 			v.comps[i] = []int64{0, 127, 128, 255}[r.Intn(4)]
 		}
 	}
+	// opaque values that happen to look like DER: an OCTET STRING / SEQUENCE / INTEGER header first
+	if r.Intn(4) == 0 {
+		hdr := func(b []byte, tag byte, n int) { b[0], b[1] = tag, byte(n) }
+		switch r.Intn(6) {
+		case 0:
+			hdr(v.ppid, 0x04, 14)
+		case 1:
+			hdr(v.ppid, 0x04, r.Intn(15))
+		case 2:
+			hdr(v.fmspc, 0x04, 4)
+		case 3:
+			hdr(v.pceid, 0x04, 0)
+		case 4:
+			hdr(v.cpusvn, 0x04, 14)
+			hdr(v.fmspc, 0x30, 4)
+		case 5:
+			hdr(v.ppid, 0x02, 14)
+			hdr(v.fmspc, 0x04, r.Intn(5))
+		}
+	}
 	v.pcesvn = int64(r.Intn(65536))
 	if r.Intn(4) == 0 {
 		v.pcesvn = []int64{0, 255, 256, 32767, 32768, 65535}[r.Intn(6)]
@@ -211,7 +231,8 @@ func shuffled(r *rand.Rand, l []*derNode) []*derNode {
 var otherExtOids = []asn1.ObjectIdentifier{{2, 5, 29, 35}, {2, 5, 29, 31}, {2, 5, 29, 14}, {2, 5, 29, 15}, {2, 5, 29, 19}}
 
 func C13(c *core.Ctx) {
-	c.Rule = "SGX extensions built from value assignments (components 0..255 incl. 0/127/128/255, PCE SVN 0..65535 incl. boundaries, random byte contents) with the five sub-extensions and the 18 TCB elements in random order, extra unknown elements and trailing members; malformed variants: component / PCE SVN out of range, negative, 9-byte and non-minimal integers, wrong ASN.1 types (OCTET STRING for INTEGER, BOOLEAN, ENUMERATED, SET, context tags), wrong octet-string lengths (incl. nested DER octet strings), missing and duplicated elements, 17 / 19 TCB elements, TCB sequence of 1 / 3 members, trailing bytes at every level, truncation, random byte mutation; certificate extension lists of length 5/6/7, SGX extension absent or duplicated. Ground truth: well-formed trees yield exactly the values in any order; everything else an error. non-trivial = the SGX extension value decodes as a SEQUENCE; distinct = distinct extension lists"
+	// (value generator: see randVals; a quarter of the assignments carry opaque values that start like a DER header)
+	c.Rule = "SGX extensions built from value assignments (components 0..255 incl. 0/127/128/255, PCE SVN 0..65535 incl. boundaries, random byte contents, a quarter of them starting like a DER OCTET STRING / SEQUENCE / INTEGER header) with the five sub-extensions and the 18 TCB elements in random order, extra unknown elements and trailing members; malformed variants: component / PCE SVN out of range, negative, 9-byte and non-minimal integers, wrong ASN.1 types (OCTET STRING for INTEGER, BOOLEAN, ENUMERATED, SET, context tags), wrong octet-string lengths (incl. nested DER octet strings), missing and duplicated elements, 17 / 19 TCB elements, TCB sequence of 1 / 3 members, trailing bytes at every level, truncation, random byte mutation; certificate extension lists of length 5/6/7, SGX extension absent or duplicated. Ground truth: well-formed trees yield exactly the values in any order; everything else an error. non-trivial = the SGX extension value decodes as a SEQUENCE; distinct = distinct extension lists"
 	r := c.Rng
 	run := func(class, desc string, sgx []byte, exts []pkix.Extension, want *sgxVals, wantErr bool, sig string) {
 		if !c.Wanted() {
